@@ -155,7 +155,18 @@ func (w *World) CheckIdentity(o *Obs, prop string) []Violation {
 			continue
 		}
 		for _, f := range sdl.SortedKeys(o.Points[h]) {
+			foreign := false
+			if hi := w.Insts[h]; hi != nil {
+				for _, pt := range w.Types[hi.Type].Points {
+					if pt.Field == f {
+						foreign = w.Resolve(hi, pt).Foreign
+					}
+				}
+			}
 			for _, obj := range o.Points[h][f] {
+				if foreign && strings.HasPrefix(obj, "?") {
+					continue // one of the container's own components in an any-typed by-type point
+				}
 				if w.componentOf(obj) == h && obj != h && w.substitutedAroundInit(h) {
 					// the holder holds an early proxy of itself (self-reference through a
 					// substitute) and is substituted again around initialization: not judged,
@@ -301,6 +312,9 @@ func (w *World) CheckCycles(out *Outcome, o *Obs) []Violation {
 				}
 				adm := setOf(r.Cands)
 				for _, g := range got {
+					if r.Foreign && strings.HasPrefix(g, "?") {
+						continue
+					}
 					if !adm[w.componentOf(g)] {
 						vs = append(vs, v("C02", "required-point-wrong-target", i.ID+"."+pt.Field, fmt.Sprintf("%s.%s holds %s, admissible: %v", i.ID, pt.Field, g, r.Cands)))
 					}
@@ -364,6 +378,9 @@ func (w *World) CheckTypeInjection(out *Outcome, o *Obs) []Violation {
 			seen := map[string]int{}
 			for _, g := range got {
 				c := w.componentOf(g)
+				if c == "" && strings.HasPrefix(g, "?") && w.Resolve(i, pt).Foreign {
+					continue // the container's own components are registered components too
+				}
 				seen[c]++
 				if c == i.ID && !pt.Single() {
 					vs = append(vs, v("C06", "slice-contains-holder", key, fmt.Sprintf("slice point %s contains its own holder", key)))
@@ -390,7 +407,7 @@ func (w *World) CheckTypeInjection(out *Outcome, o *Obs) []Violation {
 			}
 			r := out.Res[i.ID][pt.Field]
 			if pt.Single() {
-				if len(r.Cands) != 0 && len(got) == 0 && !r.DontCare {
+				if (len(r.Cands) != 0 || r.Foreign) && len(got) == 0 && !r.DontCare {
 					vs = append(vs, v("C06", "single-point-empty", key, fmt.Sprintf("%s is empty after a successful start although compatible components exist: %v", key, r.Cands)))
 				}
 				continue
@@ -721,6 +738,9 @@ func (w *World) CheckSweep(out *Outcome, runs []*Obs) []Violation {
 					var out []string
 					for _, x := range xs {
 						if c := w.componentOf(x); c != "" {
+							if ti := w.Insts[c]; ti != nil && ti.Contributed && ti.ContribBy != "" {
+								continue // registered programmatically while the container refreshes: there or not yet
+							}
 							out = append(out, c)
 						} else {
 							out = append(out, x)
